@@ -18,6 +18,7 @@ func init() {
 		{Name: "unexpected-eof-swallowed", Rule: "R8.1", Where: "ReadRemaining", Edits: []Edit{{"packet.go", "if _, err := io.ReadFull(r, data); err != nil {", "if _, err := io.ReadFull(r, data); err != nil && err != io.ErrUnexpectedEOF {"}}},
 		{Name: "packet-with-error", Rule: "R8.3", Where: "ReadRemaining", Edits: []Edit{{"packet.go", "return nil, fmt.Errorf(\n\t\t\t\"%s ReadRemaining: %w\",", "return p, fmt.Errorf(\n\t\t\t\"%s ReadRemaining: %w\","}}},
 		{Name: "packet-returned-at-a-join-with-the-error", Rule: "R8.3", Where: "ReadRemaining", Edits: []Edit{{"packet.go", "\tif _, err := io.ReadFull(r, data); err != nil {\n\t\treturn nil, fmt.Errorf(\n\t\t\t\"%s ReadRemaining: %w\",\n\t\t\tfirstByte(f.fixed).String(), err,\n\t\t)\n\t}\n\n\tif err := p.UnmarshalBinary(data); err != nil {\n\t\treturn nil, fmt.Errorf(\n\t\t\t\"%s %v UnmarshalBinary: %w\",\n\t\t\tfirstByte(f.fixed).String(), f.remainingLen, err,\n\t\t)\n\t}\n\treturn p, nil", "\t_, err := io.ReadFull(r, data)\n\tif err == nil {\n\t\tif err := p.UnmarshalBinary(data); err != nil {\n\t\t\treturn nil, fmt.Errorf(\n\t\t\t\t\"%s %v UnmarshalBinary: %w\",\n\t\t\t\tfirstByte(f.fixed).String(), f.remainingLen, err,\n\t\t\t)\n\t\t}\n\t}\n\treturn p, err"}}},
+		{Name: "eof-cleared-in-front-of-the-return", Rule: "R8.1", Where: "(*fixedHeader).ReadFrom", Edits: []Edit{{"packet.go", "\tm, err := f.remainingLen.ReadFrom(r)\n\treturn n + m, err", "\tm, err := f.remainingLen.ReadFrom(r)\n\tif err == io.EOF {\n\t\terr = nil\n\t}\n\treturn n + m, err"}}},
 		{Name: "header-error-dropped", Rule: "R8.1", Where: "(*fixedHeader).ReadFrom", Edits: []Edit{{"packet.go", "\tm, err := f.remainingLen.ReadFrom(r)\n\treturn n + m, err", "\tm, _ := f.remainingLen.ReadFrom(r)\n\treturn n + m, nil"}}},
 		{Name: "new-error-replaces", Rule: "R8.2", Where: "(*vbint).ReadFrom", Edits: []Edit{{"wiretypes.go", "if _, err := io.ReadFull(r, data); err != nil {\n\t\t\treturn i, err", "if _, err := io.ReadFull(r, data); err != nil {\n\t\t\treturn i, fmt.Errorf(\"short header\")"}}},
 		{Name: "separate-wrap-statement", Silent: true, Edits: []Edit{{"packet.go", "\tif _, err := fh.ReadFrom(r); err != nil {\n\t\treturn nil, fmt.Errorf(\"ReadPacket: %w\", err)\n\t}", "\tif _, err := fh.ReadFrom(r); err != nil {\n\t\twrapped := fmt.Errorf(\"ReadPacket: %w\", err)\n\t\treturn nil, wrapped\n\t}"}}},
@@ -39,8 +40,20 @@ func wrapsErr(v, e ssa.Value, depth int) bool {
 		if len(x.Edges) == 0 {
 			return false
 		}
-		for _, ed := range x.Edges {
+		for i, ed := range x.Edges {
 			if isNilConst(ed) {
+				// a nil edge is harmless only where the error cannot be set: the path does not pass the place
+				// the error comes from, or it lies behind `e == nil` (an `if err == io.EOF { err = nil }` in front
+				// of the return clears a failure)
+				pred := x.Block().Preds[i]
+				if ei, ok := e.(ssa.Instruction); ok && ei.Block() != nil {
+					if ei.Block().Dominates(pred) {
+						_, isNil := errEdges(e)
+						if !dominatedByAny(isNil, pred) {
+							return false
+						}
+					}
+				}
 				continue
 			}
 			if !wrapsErr(ed, e, depth+1) {
